@@ -19,6 +19,12 @@ T = guppy.type_var("T", copyable=True, droppable=True)
 U = guppy.type_var("U", copyable=True, droppable=True)
 """
 
+#: instantiations of a type parameter that exercise the `preserve` flag (None, empty tuple,
+#: 1-tuples, nested tuples) with a value of that type
+PRES = {"None": "None", "tuple[()]": "()", "tuple[int]": "(7,)",
+        "tuple[int, tuple[float, bool]]": "(3, (1.5, True))", "tuple[None, int]": "(None, 4)",
+        "tuple[tuple[()], tuple[int]]": "((), (5,))"}
+
 LITS = {"float": ["1.5", "4.0", "0.25", "-2.5", "8.0"], "int": ["7", "-3", "0", "12"],
         "bool": ["True", "False"], "nat": ["3", "4", "0", "9"]}
 
@@ -75,7 +81,9 @@ def gen_program(r, nmid=None):
 
     def mk_params(i):
         ps = []
-        shape = r.choice(["ct", "ct", "dep", "dep", "mixed", "val"])
+        shape = r.choice(["ct", "dep", "dep", "mixed", "val", "val", "ret", "ret"])
+        if shape == "ret":                  # returns the bare type variable
+            return [{"k": "v", "n": "a", "tv": "T"}]
         if shape in ("val", "mixed") or (shape == "dep" and r.random() < 0.4):
             ps.append({"k": "v", "n": "a", "tv": "T"})
         if shape in ("dep", "mixed"):
@@ -120,6 +128,8 @@ def make_call(r, caller, callee):
         cands += ["float", "int"]
         if any(p["ty"] == "nat" for p in own_ct):
             cands += ["nat", "nat"]
+        if USE_PRES[0] and not any(p["k"] == "cd" and p["tv"] == tv for p in callee.params):
+            cands += list(PRES) * 2
         bind[tv] = r.choice(cands)
     args, first_of_tv = [], set()
     for p in callee.params:
@@ -133,6 +143,9 @@ def make_call(r, caller, callee):
             if not fw:
                 return None
             args.append(r.choice(fw))
+        elif ty in PRES:
+            USE_PRES[1] = True
+            args.append(PRES[ty])
         else:
             fw = [q["n"] for q in own_ct if q["ty"] == ty]
             need_typed = ty == "nat" and p["tv"] not in first_of_tv   # inference: first T-typed arg fixes T
@@ -242,11 +255,45 @@ def copy_source(fns, main):
     return "\n".join(out), {n: len(s) for n, s in expected.items()}, ninst
 
 
+def top_components(ty):
+    """Number of top-level components of a `tuple[...]` annotation."""
+    inner = ty[len("tuple["):-1].strip()
+    if inner == "()":
+        return 0
+    depth, n = 0, 1
+    for ch in inner:
+        depth += ch == "["
+        depth -= ch == "]"
+        n += ch == "," and depth == 0
+    return n
+
+
+def row_len(ty):
+    """len(type_to_row(ty)) for a written (never `preserve`d) annotation."""
+    if ty == "None":
+        return 0
+    return top_components(ty) if ty.startswith("tuple[") else 1
+
+
+def expected_outs(fns, main):
+    """Output ports of the HUGR function: generic = row of the DECLARED return type (a bare type
+    variable is one port whatever it is instantiated with); copy = row of the substituted one."""
+    gen = {f.name: row_len(f.ret_type()) for f in fns + [main]}
+    return gen
+
+
+USE_PRES = [True, False]
+
+
 def make(r):
+    USE_PRES[0] = r.random() < 0.55     # the other programs compare pack/unpack ops strictly
+    USE_PRES[1] = False
     for _ in range(50):
         fns, main = gen_program(r)
         if main.calls:
             break
     g = generic_source(fns, main)
     c, expected, ninst = copy_source(fns, main)
-    return {"generic": g, "copy": c, "expected_defs": expected, "instantiations": ninst}
+    return {"generic": g, "copy": c, "expected_defs": expected, "instantiations": ninst,
+            "expected_outs": expected_outs(fns, main),
+            "has_preserve": USE_PRES[1]}
